@@ -44,8 +44,33 @@ RAW_FORMULAS = [
 
 
 # ------------------------------------------------------------------------------------------ cases
-def class_case(case_seed, name, forced=None):
-    """one case through the class's own add_class_constraints; returns (coq input, dump, meta, func)"""
+def _stage(func, name, case_seed, forced, ctx, resolve, regen, stage):
+    """snapshot the state, run the real set_class_constraints(), dump"""
+    oid = K.ObjIds()
+    state = K.coq_fstate(func, oid)
+    func.tables_of_constraints = K.RecDict(func.tables_of_constraints)     # records which tables this call writes
+    func.set_class_constraints()
+    dump = K.py_genout(func, oid)
+    meta = dict(kind="class", cls=name, case_seed=case_seed, forced=forced, regen=regen, stage=stage,
+                params=ctx["params"], ops=ctx["kinds"], named_function=ctx["named"],
+                stationary_at=ctx["stationary_at"], resolve=resolve,
+                n_points=len(func.list_of_points), n_stationary=len(func.list_of_stationary_points),
+                n_constraints=len(func.list_of_class_constraints), n_lmi=len(func.list_of_class_psd),
+                n_tables=len(func.tables_of_constraints),
+                names=[c.get_name() for c in func.list_of_class_constraints[:3]])
+    return ("(plan_%s, %s)" % (name, state), dump, meta, func)
+
+
+def class_stages(case_seed, name, forced=None, regen=False):
+    """generator over the stages of one class case, each a tuple (coq input, dump, meta, func) taken right after a
+    real set_class_constraints():
+      stage 0  first generation on the recorded samples;
+    and, for REGENERATION cases (regen=True: what a second / third solve of the same PEP object does),
+      stage 1  set_class_constraints() again on the unchanged function,
+      stage 2  one more sample recorded (a new oracle call at a new point; for LinearOperator sometimes only on
+               its transpose), then set_class_constraints() a third time.
+    The model has no memory: every stage is one more evaluation of run_plan on the state of that moment."""
+    from PEPit import Point
     rng = random.Random(case_seed)
     kw = {}
     if forced is not None:
@@ -54,17 +79,65 @@ def class_case(case_seed, name, forced=None):
     resolve = rng.random() < 0.2
     if resolve:
         func.set_class_constraints()       # an earlier solve: lists and tables already filled once
-    oid = K.ObjIds()
-    state = K.coq_fstate(func, oid)
-    func.set_class_constraints()
-    dump = K.py_genout(func, oid)
-    meta = dict(kind="class", cls=name, case_seed=case_seed, forced=forced, params=ctx["params"], ops=ctx["kinds"],
-                named_function=ctx["named"], stationary_at=ctx["stationary_at"], resolve=resolve,
-                n_points=len(func.list_of_points), n_stationary=len(func.list_of_stationary_points),
-                n_constraints=len(func.list_of_class_constraints), n_lmi=len(func.list_of_class_psd),
-                n_tables=len(func.tables_of_constraints),
-                names=[c.get_name() for c in func.list_of_class_constraints[:3]])
-    return ("(plan_%s, %s)" % (name, state), dump, meta, func)
+    yield _stage(func, name, case_seed, forced, ctx, resolve, regen, 0)
+    if not regen:
+        return
+    yield _stage(func, name, case_seed, forced, ctx, resolve, regen, 1)
+    ctx = dict(ctx, kinds=list(ctx["kinds"]))
+    only_T = (name == "LinearOperator" and rng.random() < 0.5)
+    if only_T:
+        func.T.gradient(Point())
+        ctx["kinds"].append("late:T.gradient")
+    else:
+        func.oracle(Point())
+        ctx["kinds"].append("late:oracle")
+        if name == "LinearOperator" and rng.random() < 0.5:
+            func.T.gradient(Point())
+            ctx["kinds"].append("late:T.gradient")
+    yield _stage(func, name, case_seed, forced, ctx, resolve, regen, 2)
+
+
+def class_case(case_seed, name, forced=None, regen=False, stage=0):
+    """one case through the class's own add_class_constraints; returns (coq input, dump, meta, func) of the
+    requested stage"""
+    for k, st in enumerate(class_stages(case_seed, name, forced, regen)):
+        if k == stage:
+            return st
+    raise ValueError("no stage %d" % stage)
+
+
+def regen_checks(prev, cur):
+    """what must hold of a REgeneration, checked on the implementation (prev / cur: stage tuples, func is the same
+    live object): list_of_class_psd does not grow (fix 3c192be); every table cell holding an object holds an
+    object of the CURRENT list_of_class_constraints (C17_tables_hold_objects); on an unchanged function the
+    regenerated constraints are the same dictionaries under the same names."""
+    from PEPit.constraint import Constraint
+    out = []
+    func = cur[3]
+    stage = cur[2]["stage"]
+    if stage == 1 and cur[2]["n_lmi"] != prev[2]["n_lmi"]:
+        out.append(dict(kind="regeneration-lmi-list-changes", before=prev[2]["n_lmi"], after=cur[2]["n_lmi"]))
+    if stage == 1 and (cur[1][0] != _plain(prev[1][0]) and _plain(cur[1][0]) != _plain(prev[1][0])):
+        out.append(dict(kind="regeneration-of-unchanged-function-differs",
+                        n_before=len(prev[1][0]), n_after=len(cur[1][0])))
+    current = {id(c) for c in func.list_of_class_constraints}
+    for key, df in func.tables_of_constraints.items():
+        stale = sum(1 for row in df.values for el in row if isinstance(el, Constraint) and id(el) not in current)
+        if stale:
+            out.append(dict(kind="regeneration-table-holds-objects-of-a-previous-generation", condition=key,
+                            cells=stale, stage=stage))
+            break
+    return out
+
+
+def _plain(d):
+    """dump tree -> comparable plain data (Q markers to Fractions)"""
+    from .common import Q
+    if isinstance(d, Q):
+        return d.v
+    if isinstance(d, (list, tuple)):
+        return [_plain(x) for x in d]
+    return d
 
 
 def raw_case(case_seed):
@@ -127,10 +200,25 @@ def raw_case(case_seed):
 
 
 def rebuild(meta):
-    """rebuild a case from its replayable description"""
+    """rebuild a case (at its stage) from its replayable description"""
     if meta["kind"] == "raw":
         return raw_case(meta["case_seed"])
-    return class_case(meta["case_seed"], meta["cls"], meta.get("forced"))
+    return class_case(meta["case_seed"], meta["cls"], meta.get("forced"), bool(meta.get("regen")),
+                      int(meta.get("stage") or 0))
+
+
+def stages_of(desc):
+    """all stage tuples of a case description, in order (generator)"""
+    if desc["kind"] == "raw":
+        yield raw_case(desc["case_seed"])
+    else:
+        for st in class_stages(desc["case_seed"], desc["cls"], desc.get("forced"), bool(desc.get("regen"))):
+            yield st
+
+
+def short(meta):
+    return dict(kind=meta["kind"], cls=meta["cls"], case_seed=meta["case_seed"], forced=meta.get("forced"),
+                regen=bool(meta.get("regen")), stage=int(meta.get("stage") or 0))
 
 
 def case_list(seed, n_class, n_raw, classes=None):
@@ -142,8 +230,9 @@ def case_list(seed, n_class, n_raw, classes=None):
     forced = ["first", "middle", "last", "none"]
     for name in classes:
         for k in range(per):
+            # one class case in three is a regeneration case (three generations on one live function)
             out.append(dict(kind="class", cls=name, case_seed=rng.getrandbits(48),
-                            forced=forced[k] if k < len(forced) else None))
+                            forced=forced[k] if k < len(forced) else None, regen=(k % 3 == 2)))
     for _ in range(n_raw):
         out.append(dict(kind="raw", cls=None, case_seed=rng.getrandbits(48)))
     return out
@@ -168,57 +257,58 @@ def run_stream(tag, tier, seed, on_case=None, classes=None, sizes=None):
         untranslated = (desc["kind"] == "class" and desc["cls"] not in have)
         if untranslated:
             skipped[desc["cls"]] = skipped.get(desc["cls"], 0) + 1
-            if on_case:
-                try:
-                    inp, dump, meta, func = rebuild(desc)
-                    for pr in on_case(meta, func) or []:
-                        problems.append(dict(case=desc, **pr))
-                except Exception as e:
-                    problems.append(dict(kind="implementation-raised", case=desc, error=repr(e)[:500]))
-            continue
+        prev = None
         try:
-            inp, dump, meta, func = rebuild(desc)
+            for st in stages_of(desc):
+                inp, dump, meta, func = st
+                if meta["kind"] == "raw" and "f_%s_%s" % (meta["cls"], meta["method"][4:]) not in have_f:
+                    skipped["raw:" + meta["method"]] = skipped.get("raw:" + meta["method"], 0) + 1
+                    continue
+                if not untranslated:
+                    cases.append((inp, dump))
+                    metas.append(meta)
+                if prev is not None:
+                    for pr in regen_checks(prev, st):
+                        problems.append(dict(case=short(meta), **pr))
+                if on_case:
+                    for pr in on_case(meta, func) or []:
+                        problems.append(dict(case=short(meta), **pr))
+                prev = st
         except Exception as e:      # recording samples / generating / reading the tables must not raise
-            problems.append(dict(kind="implementation-raised", case=desc, error=repr(e)[:500]))
+            problems.append(dict(kind="implementation-raised", case=dict(desc, stage=(prev[2]["stage"] + 1) if prev else 0),
+                                 error=repr(e)[:500]))
             continue
-        if meta["kind"] == "raw" and "f_%s_%s" % (meta["cls"], meta["method"][4:]) not in have_f:
-            skipped["raw:" + meta["method"]] = skipped.get("raw:" + meta["method"], 0) + 1
-            continue
-        cases.append((inp, dump))
-        metas.append(meta)
-        if on_case:
-            for pr in on_case(meta, func) or []:
-                problems.append(dict(case=dict(kind=meta["kind"], cls=meta["cls"], case_seed=meta["case_seed"],
-                                               forced=meta.get("forced")), **pr))
     t1 = time.time()
     bad = run_cases(tag, IMPORTS, RUN, cases, shard=40, input_type=INPUT_TYPE)
     t2 = time.time()
     mism = []
     for i in bad[:3]:
-        mism.append(dict(kind="model-differs",
-                         case=dict(kind=metas[i]["kind"], cls=metas[i]["cls"], case_seed=metas[i]["case_seed"],
-                                   forced=metas[i].get("forced")),
+        mism.append(dict(kind="model-differs", case=short(metas[i]),
                          meta=metas[i], implementation=cases[i][1],
                          model=model_output(IMPORTS, RUN, cases[i][0])[:3000]))
     distinct = set()
-    hist_cls, hist_ops, hist_n = {}, {}, {}
+    hist_cls, hist_ops, hist_n, hist_stage = {}, {}, {}, {}
     for m, (inp, _) in zip(metas, cases):
         key = m["cls"] if m["kind"] == "class" else "raw:" + m["method"]
         hist_cls[key] = hist_cls.get(key, 0) + 1
         for o in m.get("ops", []):
             hist_ops[o] = hist_ops.get(o, 0) + 1
         hist_n[m["n_constraints"]] = hist_n.get(m["n_constraints"], 0) + 1
+        if m.get("regen"):
+            hist_stage["stage %d" % m["stage"]] = hist_stage.get("stage %d" % m["stage"], 0) + 1
         if m["n_constraints"] + m.get("n_lmi", 0) >= 1:
             distinct.add(inp)
     return dict(name=tag, evaluations=len(cases), distinct_nontrivial=len(distinct),
                 rule="seeded random recorded sample lists per class through the real API, then the real "
                      "set_class_constraints(); plus direct calls of the two generic generators on arbitrary list "
-                     "pairs; non-trivial = at least one constraint or LMI generated; distinct by model input",
+                     "pairs; one class case in three is a regeneration case (set_class_constraints() again on the "
+                     "unchanged function, then once more after a new sample: three model evaluations); "
+                     "non-trivial = at least one constraint or LMI generated; distinct by model input",
                 mismatches=mism, n_mismatch=len(bad), problems=problems[:5], n_problems=len(problems),
                 samples=[dict(case=metas[i]) for i in (0, len(metas) - 1)],
                 distribution=dict(per_class=hist_cls, ops=hist_ops,
                                   n_constraints={str(k): v for k, v in sorted(hist_n.items())},
-                                  untranslated_skipped=skipped,
+                                  untranslated_skipped=skipped, regeneration_stages=hist_stage,
                                   seconds_impl=round(t1 - t0, 1), seconds_model=round(t2 - t1, 1)))
 
 
